@@ -511,17 +511,24 @@ def isDue (now : Time) (e : Entry) : Bool :=
   | some t => t ≤ now
   | none => false
 
-/-- all due entries are popped from the expiry queue; entries with EQUAL priority come out in heap
-    order, which the model does not track: when that order matters for the resulting tables (the
-    name-tree slice order decides `pitEntries[0]` of a later multi-match) the state is flagged
-    ambiguous (A-clock) -/
+def schedOf (e : Entry) : Time := e.sched.getD 0
+
+def insertBySched (e : Entry) : List Entry → List Entry
+  | [] => [e]
+  | x :: t => if schedOf x ≤ schedOf e then x :: insertBySched e t else e :: x :: t
+
+/-- all due entries are popped from the expiry queue in priority order; entries with EQUAL priority
+    come out in heap order, which the model does not track: when two such entries sit in the same
+    name-tree node and at least two entries of that node survive, the resulting slice order (it
+    decides `pitEntries[0]` of a later multi-match) is unknown and the state is flagged ambiguous
+    (A-clock) -/
 def pitExpire (s : St) : St :=
-  let due := s.pit.filter (isDue s.now)
+  let due := (s.pit.filter (isDue s.now)).foldr insertBySched []
   let a := due.foldl expireOne s
-  let b := due.reverse.foldl expireOne s
-  -- the dead nonce list may differ in the order of records made at this very instant (same expiry)
-  if a.pit == b.pit && a.dnl.length == b.dnl.length && a.dnl.all (fun d => b.dnl.contains d) then a
-  else { a with amb := true }
+  let unknownOrder := due.any fun e1 =>
+    (due.any fun e2 => e1.token != e2.token && e1.sched == e2.sched && e1.name == e2.name) &&
+    (a.pit.filter (·.name == e1.name)).length ≥ 2
+  if unknownOrder then { a with amb := true } else a
 
 def nextUpdDelay (now : Time) (pit : List Entry) : Nat :=
   match pit.filterMap (·.sched) with
